@@ -301,8 +301,10 @@ def main(argv):
     replace_data_control_flow(ob)
     sympy_part(ob)
     n_sym = ob.n
+    nb0 = len(ob.bad)
     histories(ob, C.seed())
     n_hist = ob.n - n_sym
+    bounded_ids = {b[0] for b in ob.bad[nb0:]}
     res = C.pool_map(shard, [(s, m) for s in O.systems() for m in (False, True)])
     n_obj = sum(r[0] for r in res)
     n = ob.n + n_obj
@@ -321,9 +323,12 @@ def main(argv):
             report.violation(oid, dict(kind="object-backend-symbolic-evaluation", failing_lattice_points=len(items), first=dict(obligation=oid, detail=detail),
                                        others=[o for o, _ in items[1:6]], replay_handler="vv.props.c15:replay"), has_input=True)
     level = "proof" if not bad else "other"
-    coverage = dict(obligations=n - nk, discharged=n - len(bad), obligations_posed=n, known_findings=nk,
+    nbad_b = sum(1 for b in bad if b[0] in bounded_ids)
+    n_p = n - n_hist         # the random histories are a bounded cross-check of the induction: reported separately, not counted
+    coverage = dict(obligations=n_p - nk, discharged=n_p - (len(bad) - nbad_b), obligations_posed=n_p, known_findings=nk,
                     by_backend={"term identity / object identity (object backend on symbolic coordinates)": n_obj, "SymPy backend (symbolic expressions)": n_sym - 2,
-                                "control-flow check of _replace_data (AST)": 2, "bounded random histories (cross-check of the induction)": n_hist},
+                                "control-flow check of _replace_data (AST)": 2},
+                    bounded_random_histories=dict(evaluations=n_hist, failed=nbad_b, label="BOUNDED cross-check of the induction - not counted in obligations / discharged"),
                     exhaustive=True, checker_cmd=f"./check C15 --tier {C.tier()}",
                     trusted_base=["parametricity of the object backend in its coordinate values", "induction over the length of the history from per-step contracts under the representation invariant", "CPython"],
                     samples=[dict(obligation="C15/setter/rho/partner-unchanged[xy,z,t|gen]", status="phi reads as the pre-state phi term"),
